@@ -26,7 +26,7 @@ N("limbs-helper-check", ["C04"],
 B("canon-add-no-mask", ["C04", "C01"],
   [("src/add.rs", "        let overflow = carry | (self.limbs[LIMBS - 1] > Self::MASK);\n        (self.masked(), overflow)",
     "        let overflow = carry | (self.limbs[LIMBS - 1] > Self::MASK);\n        (self, overflow)")], "overflowing_add|return-dirty")
-B("canon-shl-no-mask", ["C04", "C05"], [("src/bits.rs", "        r.apply_mask();\n        (r, carry != 0)", "        (r, carry != 0)")],
+B("canon-shl-no-mask", ["C04", "C05"], [("src/bits.rs", "        r.apply_mask();\n        (r, overflow)", "        (r, overflow)")],
   "overflowing_shl|return-dirty")
 B("canon-set_bit-no-guard", ["C04", "C06"],
   [("src/bits.rs", "        if index >= BITS {\n            return;\n        }\n        let (limbs, bits) = (index / 64, index % 64);\n        if value {",
@@ -215,3 +215,29 @@ N("fixedlen-ssz-match-form", ["C17", "C16"],
 # ---- R-TOTAL/overflow-checks on C16 (defect F16, re-created)
 B("ovf-scale-size_hint-256-bit-formula", ["C16"],
   [("src/support/scale.rs", "            _ => self.0.byte_len() + 1,\n", "            _ => (32 - self.0.leading_zeros() / 8) + 1,\n")], "Overflow(Sub:32")
+
+# ---- idioms learnt from the benign-refactor campaign (DESIGN section 9): each must stay silent
+N("idiom-str-get-prefix", ["C09", "C17"],
+  [("src/string.rs", "        let (src, radix) = if src.is_char_boundary(2) {\n            let (prefix, rest) = src.split_at(2);\n            match prefix {\n                \"0x\" | \"0X\" => (rest, 16),\n                \"0o\" | \"0O\" => (rest, 8),\n                \"0b\" | \"0B\" => (rest, 2),\n                _ => (src, 10),\n            }\n        } else {\n            (src, 10)\n        };",
+    "        let (src, radix) = match src.get(..2) {\n            Some(\"0x\" | \"0X\") => (&src[2..], 16),\n            Some(\"0o\" | \"0O\") => (&src[2..], 8),\n            Some(\"0b\" | \"0B\") => (&src[2..], 2),\n            _ => (src, 10),\n        };")])
+B("idiom-str-get-prefix-wrong-offset", ["C09"],
+  [("src/string.rs", "        let (src, radix) = if src.is_char_boundary(2) {\n            let (prefix, rest) = src.split_at(2);\n            match prefix {\n                \"0x\" | \"0X\" => (rest, 16),\n                \"0o\" | \"0O\" => (rest, 8),\n                \"0b\" | \"0B\" => (rest, 2),\n                _ => (src, 10),\n            }\n        } else {\n            (src, 10)\n        };",
+    "        let (src, radix) = match src.get(..2) {\n            Some(\"0x\" | \"0X\") => (&src[3..], 16),\n            Some(\"0o\" | \"0O\") => (&src[2..], 8),\n            Some(\"0b\" | \"0B\") => (&src[2..], 2),\n            _ => (src, 10),\n        };")], "for str>::index")
+N("idiom-get_mut-question-mark", ["C08"],
+  [("src/bytes.rs", "        if buf.len() < Self::BYTES {\n            return None;\n        }\n\n        Some(self.copy_le_bytes_to(buf))", "        let dst = buf.get_mut(..Self::BYTES)?;\n        Some(self.copy_le_bytes_to(dst))")])
+B("idiom-get_mut-too-short", ["C08"],
+  [("src/bytes.rs", "        if buf.len() < Self::BYTES {\n            return None;\n        }\n\n        Some(self.copy_le_bytes_to(buf))", "        let dst = buf.get_mut(..Self::BYTES - 1)?;\n        Some(self.copy_le_bytes_to(dst))")], "checked_copy_le")
+N("idiom-sum-as-loop", ["C20", "C01"],
+  [("src/add.rs", "        iter.fold(Self::ZERO, Self::wrapping_add)", "        let mut total = Self::ZERO;\n        for term in iter {\n            total = total.wrapping_add(term);\n        }\n        total")])
+N("idiom-while-decrement-index", ["C08", "C16"],
+  [("src/utils.rs", "    x.iter().rposition(|b| b != value).map_or(0, |idx| idx + 1)", "    let mut len = x.len();\n    while len > 0 {\n        if x[len - 1] != *value {\n            break;\n        }\n        len -= 1;\n    }\n    len")])
+B("idiom-while-decrement-off-by-one", ["C08"],
+  [("src/utils.rs", "    x.iter().rposition(|b| b != value).map_or(0, |idx| idx + 1)", "    let mut len = x.len();\n    while len > 0 {\n        if x[len] != *value {\n            break;\n        }\n        len -= 1;\n    }\n    len")], "last_idx")
+N("idiom-reduce_mod-eq-zero", ["C10", "C03"],
+  [("src/modular.rs", "        if modulus.is_zero() {\n            return Self::ZERO;\n        }\n        if self >= modulus {\n            self %= modulus;\n        }\n        self",
+    "        if modulus == Self::ZERO {\n            return Self::ZERO;\n        }\n        if self >= modulus {\n            self %= modulus;\n        }\n        self")])
+N("idiom-checked_log-ok-question", ["C13"],
+  [("src/log.rs", "        let two = match Self::try_from(2_u64) {\n            Ok(two) => two,\n            Err(_) => return None,\n        };", "        let two = Self::try_from(2_u64).ok()?;")])
+N("idiom-set_bit-nested-branch", ["C04", "C06"],
+  [("src/bits.rs", "        if index >= BITS {\n            return;\n        }\n        let (limbs, bits) = (index / 64, index % 64);\n        if value {\n            self.limbs[limbs] |= 1 << bits;\n        } else {\n            self.limbs[limbs] &= !(1 << bits);\n        }",
+    "        if index < BITS {\n            let (limbs, bits) = (index / 64, index % 64);\n            if value {\n                self.limbs[limbs] |= 1 << bits;\n            } else {\n                self.limbs[limbs] &= !(1 << bits);\n            }\n        }")])
